@@ -385,6 +385,13 @@ func genC16(execRatio int) *rapid.Generator[C16Case] {
 		for i := 0; i < nc; i++ {
 			c.Comments = append(c.Comments, rapid.SampledFrom([]string{"#", "# plain comment", "# TABDOC: fn does a thing", "# it's got 'quotes' and \\ backslashes", "#no space", "# TABDOC: other $(x) `y`", "##", "# trailing space "}).Draw(t, "comment"))
 		}
+		// sometimes a long header (licence text, documentation): the run of
+		// leading comment lines has no length limit
+		if rapid.IntRange(0, 9).Draw(t, "longheader") == 0 {
+			for i := rapid.SampledFrom([]int{60, 126, 127, 128, 129, 200, 300, 1000}).Draw(t, "nheader"); i > 0; i-- {
+				c.Comments = append(c.Comments, fmt.Sprintf("# header line %d", i))
+			}
+		}
 		c.Blank = rapid.Bool().Draw(t, "blank")
 		ns := rapid.IntRange(0, 7).Draw(t, "nstmts")
 		for i := 0; i < ns; i++ {
@@ -481,6 +488,9 @@ func c16Classes(c C16Case) []string {
 	}
 	if len(c.Comments) > 0 {
 		cl = append(cl, "lead-comments")
+	}
+	if len(c.Comments) >= 128 {
+		cl = append(cl, "lead-comments>=128")
 	}
 	if len(c.Args) == 0 {
 		cl = append(cl, "no-args")
